@@ -34,9 +34,6 @@ def a_chooseBatchSettings(T):
         'self.batchsize': onum('batchsize'),
         'self.num_batches': onum('numBatches'),
         'self._batch_remainder': onum('remainder'),
-        # the modelled domain: both settings, when given, are Python ints
-        'isinstance(self.batchsize, int)': boo('true'),
-        'isinstance(self.num_batches, int)': boo('true'),
     }, result=['self.batchsize', 'self.num_batches', 'self._batch_remainder'])
     return translate_fn(spec, T, find)
 
@@ -151,8 +148,10 @@ def _is_doc(st):
 
 
 def _head_end(st):
-    """the head of sow_combos / sow_cases = the leading `if <arg> is not None: self.<attr> = <arg>` statements"""
-    return not (_is_doc(st) or isinstance(st, ast.If))
+    """the head of sow_combos / sow_cases = the statements before the arguments are parsed (`combos = parse_combos(…)`
+    resp. `fn_args = parse_fn_args(…)`); whatever stands there must be in the translated sub-language"""
+    return isinstance(st, ast.Assign) and isinstance(st.value, ast.Call) and \
+        ast.unparse(st.value.func) in ('parse_combos', 'parse_fn_args', 'parse_cases')
 
 
 _SOW_ENV = {
